@@ -742,7 +742,11 @@ to `/repo` itself, checked, and undone (`tools/seed_confirm.sh`, recorded in
   *Composition test* (`tools/seed_on_refactorings.sh`): each of the 39 seeds applied
   on top of every kept refactoring of its property on which the patch still applies
   and builds, the refactorings that alarm on their own left out: 1,210 compositions,
-  all reported. One of the new rules is stricter than the property: `C19.std-namesake-forwarders`
+  all reported. The same test with the 40 seeds of round 11: 1,262 compositions, one
+  not reported and then fixed - `rSampleSlice` shuffling the caller's slice (C19-r11m1)
+  on top of the refactoring that hands `swappable[T](a).swap` to `r.Shuffle` (C19-r22):
+  the effects analysis of `C19.param-effects` now follows a method value bound to the
+  argument (the method writes through its receiver). One of the new rules is stricter than the property: `C19.std-namesake-forwarders`
   would also report a *correct* shortcut in front of the forwarded call (`if len(s) == 0
   { return -1 }` in `Index`); none of the kept refactorings of C19 has one.
 
